@@ -244,7 +244,7 @@ class Device:
             self.last_exc = exc
             return "X"
 
-    def dump(self):
+    def dump(self, class_level=False):
         items = []
         seen = set()
         for name, (c, i, a) in sorted(self.addrs.items(), key=lambda kv: kv[1]):
@@ -271,7 +271,7 @@ class Device:
         # the class-level instance (0) every CIP class gets: its static attributes Revision (1) and Optional Attributes (4)
         # (Max Instance / Num Instances depend on what the interpreter created before, see device.lookup_reset)
         classes = []
-        for c, _i in objs:
+        for c, _i in (objs if class_level else []):
             if c not in classes:
                 classes.append(c)
         for c in classes:
@@ -294,7 +294,7 @@ def run_case(case):
         outs = []
         for r in case["reqs"]:
             rep = dev.request(r)
-            outs.append(rep + "@" + dev.dump())
+            outs.append(rep + "@" + dev.dump(class_level=True))
         return ";".join(outs) if outs else "-"
     finally:
         dev.close()
